@@ -155,8 +155,8 @@ def median_case(draw):
         width = draw(st.sampled_from([w for w in range(1, shape[0] + 1, 2)]))
     if mode == 'run2d':
         width = draw(st.sampled_from([w for w in range(1, min(shape) + 1, 2)]))
-    dtype = draw(st.sampled_from(['f8', 'f4']))
-    if mode in ('whole', 'whole2d') and dtype == 'f8' and draw(st.integers(0, 5)) == 0:
+    dtype = draw(st.sampled_from(['f8', 'f4', '>f8', '>f4', 'f8']))         # big-endian: what a FITS image delivers
+    if mode in ('whole', 'whole2d') and dtype in ('f8', '>f8') and draw(st.integers(0, 5)) == 0:
         # finite values of any size: the median is one of them, or the mean of two of them
         x = [draw(st.sampled_from([1e308, -1e308, 0.0, 1.0, -1e308, 1e308])) for _ in x]
     return dict(mode=mode, shape=shape, x=x, width=width, even=draw(st.booleans()), dtype=dtype, readonly=draw(st.sampled_from([False, False, True])))
@@ -182,7 +182,7 @@ def median_body(case):
             want = s[m // 2]
         with judge('median'):
             check(np.ndim(got) == 0, 'median:not-a-scalar')
-            check(abs(float(got) - want) <= 1e-6 * max(1.0, abs(want)) if case['dtype'] == 'f4' else float(got) == want, 'median:wrong-value',
+            check(abs(float(got) - want) <= 1e-6 * max(1.0, abs(want)) if case['dtype'].endswith('f4') else float(got) == want, 'median:wrong-value',
                   lambda: dict(got=float(got), want=float(want), n=m, even=case['even']))
         return
     w = case['width']
